@@ -239,4 +239,164 @@ theorem dataLoop_md (io : NumIO α) (obs : List Text) (rows : List (List α)) (m
 
 end loop
 
+/-! ### the last-column heuristic on exported texts -/
+
+theorem numeric_plain (io : NumIO α) (obs : List Text) (rows : List (List α))
+    (hobs : ∀ o ∈ obs, IdOk o) (hrow : ∀ r ∈ rows, r ≠ [] ∧ ∀ v ∈ r, NumOk io v) :
+    (List.zipWith (baseLine io) obs rows).all (fun l => (io.parse (strip (afterLast '\t' l))).isSome) = true := by
+  induction obs generalizing rows with
+  | nil => simp
+  | cons o os ih =>
+    cases rows with
+    | nil => simp
+    | cons r rs =>
+      have hr := hrow r (List.mem_cons_self ..)
+      obtain ⟨_, _, _, d⟩ := data_line_plain io o r (hobs o (List.mem_cons_self ..)) hr.1 hr.2
+      rw [List.zipWith_cons_cons, List.all_cons, d,
+        ih rs (fun x hx => hobs x (List.mem_cons_of_mem _ hx)) (fun x hx => hrow x (List.mem_cons_of_mem _ hx))]
+      rfl
+
+/-- one metadata text that is not a number is enough for the column to be recognised -/
+theorem numeric_md (io : NumIO α) (obs : List Text) (rows : List (List α)) (ms : List Text)
+    (hlen : rows.length = obs.length) (hmlen : ms.length = obs.length)
+    (hobs : ∀ o ∈ obs, IdOk o) (hrow : ∀ r ∈ rows, r ≠ [] ∧ ∀ v ∈ r, NumOk io v) (hms : ∀ m ∈ ms, '\t' ∉ m)
+    (hex : ∃ m ∈ ms, io.parse (strip m) = none) :
+    (List.zipWith (fun (or : Text × List α) m => baseLine io or.1 or.2 ++ '\t' :: m) (obs.zip rows) ms).all
+      (fun l => (io.parse (strip (afterLast '\t' l))).isSome) = false := by
+  induction obs generalizing rows ms with
+  | nil =>
+    obtain ⟨m, hm, _⟩ := hex
+    cases ms with
+    | nil => cases hm
+    | cons _ _ => simp at hmlen
+  | cons o os ih =>
+    cases rows with
+    | nil => simp at hlen
+    | cons r rs =>
+      cases ms with
+      | nil => simp at hmlen
+      | cons m ms =>
+        have hr := hrow r (List.mem_cons_self ..)
+        obtain ⟨_, _, _, d⟩ := data_line_md io o m r (hobs o (List.mem_cons_self ..)) hr.1 hr.2
+          (hms m (List.mem_cons_self ..))
+        rw [List.zip_cons_cons, List.zipWith_cons_cons, List.all_cons, d]
+        obtain ⟨x, hx, hxn⟩ := hex
+        rcases List.mem_cons.mp hx with e | hx
+        · subst e; simp [hxn]
+        · rw [ih rs ms (by simpa using hlen) (by simpa using hmlen)
+            (fun y hy => hobs y (List.mem_cons_of_mem _ hy)) (fun y hy => hrow y (List.mem_cons_of_mem _ hy))
+            (fun y hy => hms y (List.mem_cons_of_mem _ hy)) ⟨x, hx, hxn⟩]
+          simp
+
+theorem rows_ok (io : NumIO α) (e : Export α μ) (h : TableOk io e) :
+    ∀ r ∈ e.rows, r ≠ [] ∧ ∀ v ∈ r, NumOk io v := by
+  intro r hr
+  refine ⟨?_, h.num_ok r hr⟩
+  intro e0
+  have := h.row_len r hr
+  rw [e0] at this
+  exact h.samp_ne (List.length_eq_zero_iff.mp this.symm)
+
+section main
+variable [Zero α] [DecidableEq α]
+
+/-- what the extractor finds in an exported text without a metadata column -/
+theorem extract_plain (io : NumIO α) (e : Export α μ) (h : TableOk io e)
+    (hhv : truthy e.headerValue = false) :
+    extractData io (line0 :: headerLine e :: dataLines io e.obs e.rows none) =
+      .ok { samp := e.samp, obs := e.obs, triples := allTriples 0 e.rows, md := none, mdName := none } := by
+  have hl1 : headerLine e = e.colName ++ '\t' :: join '\t' e.samp := by simp [headerLine, hhv]
+  obtain ⟨a, b, c, d⟩ := header_fields e.colName e.samp h.samp_ne h.samp_ok h.col_ne h.col_noTab h.col_noLead
+  have hro := rows_ok io e h
+  have hnum := numeric_plain io e.obs e.rows h.obs_ok hro
+  have hloop := dataLoop_plain io e.obs e.rows 0 h.rows_len h.obs_ok hro
+  rw [hl1]
+  cases ho : e.obs with
+  | nil => exact absurd ho h.obs_ne
+  | cons o os =>
+    cases hr : e.rows with
+    | nil => have := h.rows_len; rw [ho, hr] at this; simp at this
+    | cons r rs =>
+      rw [ho, hr] at hnum hloop
+      obtain ⟨p, q, _, _⟩ := data_line_plain io o r (h.obs_ok o (by rw [ho]; exact List.mem_cons_self ..))
+        (hro r (by rw [hr]; exact List.mem_cons_self ..)).1 (hro r (by rw [hr]; exact List.mem_cons_self ..)).2
+      have hf := findHeader_classic (e.colName ++ '\t' :: join '\t' e.samp) (baseLine io o r)
+        (List.zipWith (baseLine io) os rs) e.samp h.samp_ne a b c d p q
+      simp only [dataLines, List.zipWith_cons_cons] at hnum hloop ⊢
+      simp only [extractData, hf, List.drop_succ_cons, List.drop_zero, hnum, Bool.true_or, if_true, hloop]
+
+/-- what the extractor finds in an exported text with a metadata column -/
+theorem extract_md (io : NumIO α) (e : Export α μ) (h : TableOk io e) (hv : Text) (ms : List Text)
+    (hhv : e.headerValue = some hv) (hvok : FieldOk hv) (hml : ms.length = e.obs.length)
+    (hmt : ∀ m ∈ ms, '\t' ∉ m) (hex : ∃ m ∈ ms, io.parse (strip m) = none) :
+    extractData io (line0 :: headerLine e :: dataLines io e.obs e.rows (some ms)) =
+      .ok { samp := e.samp, obs := e.obs, triples := allTriples 0 e.rows, md := some (ms.map strip),
+            mdName := some hv } := by
+  have htr : truthy e.headerValue = true := by
+    rw [hhv]; cases hv with
+    | nil => exact absurd rfl hvok.ne
+    | cons c t => rfl
+  rw [hhv] at htr
+  have hl1 : headerLine e = e.colName ++ '\t' :: join '\t' (e.samp ++ [hv]) := by
+    simp only [headerLine, htr, if_true, hhv, Option.getD_some, join_append_singleton '\t' e.samp hv h.samp_ne]
+    simp
+  have hH : ∀ f ∈ e.samp ++ [hv], FieldOk f := by
+    intro f hf
+    rcases List.mem_append.mp hf with hf | hf
+    · exact h.samp_ok f hf
+    · have : f = hv := by simpa using hf
+      exact this ▸ hvok
+  obtain ⟨a, b, c, d⟩ := header_fields e.colName (e.samp ++ [hv]) (by simp) hH h.col_ne h.col_noTab h.col_noLead
+  have hro := rows_ok io e h
+  have hnum := numeric_md io e.obs e.rows ms h.rows_len hml h.obs_ok hro hmt hex
+  have hloop := dataLoop_md io e.obs e.rows ms 0 h.rows_len hml h.obs_ok hro hmt
+  rw [hl1]
+  cases ho : e.obs with
+  | nil => exact absurd ho h.obs_ne
+  | cons o os =>
+    cases hr : e.rows with
+    | nil => have := h.rows_len; rw [ho, hr] at this; simp at this
+    | cons r rs =>
+      cases hm : ms with
+      | nil => rw [ho, hm] at hml; simp at hml
+      | cons m ms' =>
+        rw [ho, hr, hm] at hnum hloop
+        have hmm : '\t' ∉ m := hmt m (by rw [hm]; exact List.mem_cons_self ..)
+        obtain ⟨p, q, _, _⟩ := data_line_md io o m r (h.obs_ok o (by rw [ho]; exact List.mem_cons_self ..))
+          (hro r (by rw [hr]; exact List.mem_cons_self ..)).1 (hro r (by rw [hr]; exact List.mem_cons_self ..)).2 hmm
+        have hf := findHeader_classic (e.colName ++ '\t' :: join '\t' (e.samp ++ [hv]))
+          (baseLine io o r ++ '\t' :: m)
+          (List.zipWith (fun (or : Text × List α) m => baseLine io or.1 or.2 ++ '\t' :: m) (os.zip rs) ms')
+          (e.samp ++ [hv]) (by simp) a b c d p q
+        simp only [dataLines, List.zip_cons_cons, List.zipWith_cons_cons] at hnum hloop ⊢
+        simp only [extractData, hf, List.drop_succ_cons, List.drop_zero, hnum, Bool.false_or, hloop]
+        simp
+
+/-- the table with the IDs and grid of `e` and the given metadata -/
+def reimported (e : Export α μ) (omd : Option (List (Text × ν))) : Imported α ν :=
+  { obs := e.obs, samp := e.samp, rows := e.rows, omd := omd }
+
+/-- from the extracted pieces to the table: entries inside the announced shape, IDs distinct, and
+the matrix built from the entries is the grid -/
+theorem fromTsv_of_extract (io : NumIO α) (proc : Text → ν) (lines : List Text) (e : Export α μ)
+    (h : TableOk io e) (md : Option (List Text)) (mdName : Option Text)
+    (hx : extractData io lines =
+      .ok { samp := e.samp, obs := e.obs, triples := allTriples 0 e.rows, md := md, mdName := mdName }) :
+    fromTsv io proc lines = .ok (reimported e (match md, mdName with
+        | some ms, some nm => some (ms.map (fun s => (nm, proc s)))
+        | _, _ => none)) := by
+  have hany : (allTriples 0 e.rows).any
+      (fun t => decide (e.obs.length ≤ t.1) || decide (e.samp.length ≤ t.2.1)) = false := by
+    rw [List.any_eq_false]
+    intro t ht
+    have := allTriples_mem 0 e.samp.length e.rows h.row_len t ht
+    have hl := h.rows_len
+    simp only [Bool.or_eq_true, decide_eq_true_eq, not_or, Nat.not_le]
+    omega
+  simp only [fromTsv, hx, hany, Bool.false_eq_true, if_false, h.obs_nodup, h.samp_nodup, decide_true,
+    Bool.and_self, Bool.not_true, Bool.and_false,
+    gridOf_allTriples e.obs.length e.samp.length e.rows h.rows_len h.row_len, reimported]
+
+end main
+
 end Biom.C03
